@@ -33,6 +33,14 @@ func init() {
 		// R7.6
 		variant{Prop: "C07", Name: "raw-string-backslash-pair-not-consumed", File: "lexer/lexer.go", Old: "\t\t\tif nextChar == '\\\\' {\n", New: "\t\t\tif false && nextChar == '\\\\' {\n", Rule: "R7.6", Construct: "readRawString"},
 		variant{Prop: "C07", Name: "string-escape-steps-over-backslash-only", File: "lexer/lexer.go", Old: "\t\tif l.CurrentChar == '\\\\' {\n\t\t\tl.ReadChar() // Move to the character after backslash\n", New: "\t\tif l.CurrentChar == '\\\\' && l.PeekChar() != '\\\\' {\n\t\t\tl.ReadChar() // Move to the character after backslash\n", Rule: "R7.6", Construct: "readString"},
+		// R11.6
+		variant{Prop: "C11", Name: "binding-power-without-infix-function", File: "parser/parser.go", Old: "\ttoken.ASSIGN:       ASSIGNMENT,\n", New: "\ttoken.ASSIGN:       ASSIGNMENT,\n\ttoken.COLON:        ASSIGNMENT,\n", Rule: "R11.6", Construct: "constructor: binding-power keys"},
+		variant{Prop: "C11", Name: "registered-infix-function-optional", File: "parser/parser.go", Old: "\tp.precedences[tokenType] = precedence\n\tp.infixParseFns[tokenType] = func(left ast.Expression) ast.Expression {", New: "\tp.precedences[tokenType] = precedence\n\tif createExpr == nil {\n\t\treturn\n\t}\n\tp.infixParseFns[tokenType] = func(left ast.Expression) ast.Expression {", Rule: "R11.6", Construct: "registerInfixOperator: binding-power entry"},
+		variant{Prop: "C11", Name: "infix-applied-before-advancing", File: "parser/parser_functions.go", Old: "\tp.NextToken()\n\treturn infix(left)", New: "\tresult := infix(left)\n\tp.NextToken()\n\treturn result", Rule: "R11.6", Construct: "ParseInfixExpression: advances before"},
+		// R11.5
+		variant{Prop: "C11", Name: "first-error-read-without-length-test", File: "parser/parser.go", Old: "\tif len(p.errors) > 0 {\n\t\treturn program, fmt.Errorf(", New: "\tif len(p.errors) >= 0 {\n\t\treturn program, fmt.Errorf(", Rule: "R11.5", Construct: "ParseProgram: index"},
+		variant{Prop: "C11", Name: "current-context-of-empty-stack", File: "parser/parser_context.go", Old: "if len(p.contextStack) == 0 {", New: "if len(p.contextStack) < 0 {", Rule: "R11.5", Construct: "CurrentContext: index"},
+		variant{Prop: "C11", Name: "prefix-function-called-without-nil-test", File: "parser/parser_functions.go", Old: "\tif prefix == nil {\n\t\tp.AddError(fmt.Sprintf(\"unexpected %s\", p.CurrentToken.Literal))\n\t\treturn nil\n\t}\n", New: "\tif prefix == nil && p.tolerantMode {\n\t\tp.AddError(fmt.Sprintf(\"unexpected %s\", p.CurrentToken.Literal))\n\t\treturn nil\n\t}\n", Rule: "R11.5", Construct: "ParsePrefixExpression: dynamic call"},
 		// R12.5 scanner exits
 		variant{Prop: "C12", Name: "string-scan-stops-on-lookahead", File: lx, Old: "\tfor {\n\t\tl.ReadChar()\n\t\tif l.CurrentChar == 0 {\n\t\t\tbreak\n\t\t}\n\t\t// Handle escape sequences", New: "\tfor l.PeekChar() != 0 {\n\t\tl.ReadChar()\n\t\t// Handle escape sequences", Rule: "R12.5", Construct: "end-of-input exit"},
 	)
